@@ -188,8 +188,11 @@ CHECKS["C17"] = {
     "design_ref": "DESIGN.md §4 C17",
 }
 CHECKS["C01"] = {
-    "technique": "Lean 4 proof over M-Ops (ECMAScript operators and coercions on primitives) and M-Ctl (completion-record semantics of blocks, loops, labels, switch, try/catch/finally, temporal dead zone) + correspondence of both models with tsrun on exhaustive operand cross products and Lean-generated programs + differential against a reference engine (node, or golden outputs recorded from it) over operators x operand shapes, the built-in library and feature programs + reference-free equivalence of spellings",
-    "text": "Symmetry of ==/===, NaN and null/undefined rules, string concatenation, commutativity of number addition, the equivalent spellings (+v = v-0 = v*1, -v = v*-1 but not 0-v, a>b = b<a, != = !==) are Lean theorems over all values; "
+    "technique": "Lean 4 proof over M-Pratt (the precedence-climbing loop, for every operator table and every expression tree; the table of the current source is regenerated from parser.rs and proved order-isomorphic to ECMA-262's), M-Ops (ECMAScript operators and coercions on primitives) and M-Ctl (completion-record semantics of blocks, loops, labels, switch, try/catch/finally, temporal dead zone) + correspondence of both models with tsrun on exhaustive operand cross products and Lean-generated programs + differential against a reference engine (node, or golden outputs recorded from it) over operators x operand shapes, the built-in library and feature programs + reference-free equivalence of spellings",
+    "text": "parse_minimal_parens / parse_wellformed (for every operator table and every expression tree of any size, the Pratt loop recovers the tree from its minimally parenthesised token list), parse_order_iso (the parse depends on the table only through the order of its numbers and the associativity flags), "
+            "table_is_spec + gen_parses_as_spec (the 25-row table, the break test, the next_prec rule, the logical-operator mapping and the prefix operators regenerated from src/parser.rs by bin/extract parse EVERY token list exactly as ECMA-262's nesting of productions does) are Lean theorems; "
+            "the model with the regenerated table is compared with the real parser on all 625 operator pairs and 3000 (quick) / 40000 (thorough) random and malformed token lists, the real parser with the model under the specification's table, and every text with its fully parenthesised tree by evaluation. "
+            "Symmetry of ==/===, NaN and null/undefined rules, string concatenation, commutativity of number addition, the equivalent spellings (+v = v-0 = v*1, -v = v*-1 but not 0-v, a>b = b<a, != = !==) are Lean theorems over all values; "
             "that a finally block keeps the pending completion when it ends normally and overrides it otherwise, that catch binds the thrown value, that break/continue reach exactly their own label and that a block-level let shadows from the start of its block (TDZ) "
             "are Lean theorems over all programs, states and fuel. M-Ops is compared with tsrun on every pair of 45+ primitive operands x 14 binary and 5 unary operators; M-Ctl on 400 (quick) / 6000 (thorough) programs generated in Lean. "
             "About 30k operator expressions over objects/arrays/functions/wrappers, 10-25k library calls with boundary arguments (NaN, -0, negative/fractional/out-of-range indices, empty and non-ASCII strings, holes), 100 feature programs x parameters and 8k+ pairs of equivalent spellings are evaluated on tsrun and compared with the reference engine / with each other.",
